@@ -125,6 +125,9 @@ func (u *executeUnit) prepareRun(r euReq) euResp {
 
 func (u *executeUnit) run(r euReq) euResp {
 	execution, err := u.runner.Runner.Run(u.ctx, r.app.Labels, u.runner.Pc, u.memory, u.runner.SequenceID)
+	// The forwarded value is consumed: it must not leak into a later execution
+	// of this instruction (next loop iteration, next run of the application)
+	u.runner.Runner.Forward(risc.Forward{})
 	if err != nil {
 		return euResp{err: err}
 	}
